@@ -38,7 +38,12 @@ Meaning given to them
     of the method is translated once with x and once with the static NaN;
   * a parameter ranges over the model's value universe (PARAMS): it may be used as a
     number only where the guards `isinstance(..)` / `math.isnan(..)` in front of it have
-    established that it is one; `isinstance` tests are decided on that universe;
+    established that it is one; `isinstance` tests are decided on that universe; behind
+    those guards `p = float(p)` is accepted for the value / weight parameters listed in
+    FLOAT_COERCIBLE (the identity on the universe: floats, ints and bools exactly
+    representable as float; a Quantity argument, which float() turns into its si-value, is
+    outside the universe and covered by the correspondence runs only) and for no other
+    parameter -- a timestamp may be an int beyond 2^53, which float() would change;
   * `self.m()` / `super().m()` are resolved statically in the class (or its base); a
     recursive call with constant arguments (`self.excess_kurtosis()` inside
     excess_kurtosis) becomes a call of a specialised definition `gen_.._m__biased_true`.
@@ -110,6 +115,12 @@ PARAMS = {
     ("TimestampWeightedTally", "end_observations", "timestamp"): "Arg",
 }
 PARAMS_BY_NAME = {"biased": "B", "name": "Name"}
+# parameters that may be re-bound by `p = float(p)` once the guards established that p is a number and not nan
+FLOAT_COERCIBLE = {
+    ("Tally", "register", "value"),
+    ("WeightedTally", "register", "value"), ("WeightedTally", "register", "weight"),
+    ("TimestampWeightedTally", "register", "value"),
+}
 GTYPE = {"B": "bool", "Arg": "pyarg (F N)", "Alpha": "alpha_arg N", "CObs": "cobs", "Name": "pyname",
          "Z": "Z", "F": "F N", "XF": "xnum (F N)"}
 # isinstance(p, T) on the universes: set of class names -> boolean term
@@ -539,6 +550,15 @@ class Translator:
                 self.fail(node, "assignment to self")
             old = env.locals.get(target.id)
             if old is not None and old.ty in ("Arg", "Alpha", "CObs", "Name") and old.tx == "p_" + target.id:
+                # `p = float(p)` behind the guards: on the model's value universe (floats, ints / bools exactly
+                # representable as float) this is the identity, p simply becomes a float-valued local.  (What it
+                # does to a Quantity -- its si-value -- is outside this universe: the correspondence run covers it.)  Only for the parameters in FLOAT_COERCIBLE: a timestamp may be an int
+                # beyond 2^53, which float() changes -- coercing one is refused like any other assignment.
+                if (self.ctx.cls, self.ctx.name, target.id) in FLOAT_COERCIBLE and old.ty == "Arg" \
+                        and v.ty == "F" and v.tx == f"(py_arg_num {old.tx})":
+                    e2 = env.clone()
+                    e2.locals[target.id] = v
+                    return k(e2)
                 self.fail(node, f"assignment to the parameter `{target.id}`")
             e2 = env.clone()
             if v.ty == "Pair":
